@@ -74,7 +74,23 @@ def series_inplace_numeric(w):
             'call': dict(w, result=repr(r), after=s.tolist(), dtype_after=str(s.dtype))}
 
 
-WITNESS = {'suffix-filter-unsafe': suffix_filter_unsafe, 'gray-pair-njobs': gray_pair_njobs,
+def profiler_none_and_nan(w):
+    from py_stringsimjoin.profiler.profiler import profile_table_for_join
+    import numpy as np
+    vals = [np.nan if v == 'nan' else v for v in w['values']]
+    df = pd.DataFrame({'a': pd.Series(vals, dtype=object)})
+    out = profile_table_for_join(df)
+    cell = out.loc['a', 'Unique values']
+    got = int(str(cell).split(' ')[0])
+    if got != w['expected_unique']:
+        return {'what': "profile_table_for_join counts the missing value twice in 'Unique values' for a column holding both None and NaN",
+                'class': {'entry': 'profile_table_for_join', 'stream': 'mixed', 'mixed_missing': True,
+                          'kind': 'spec: distinct values with a missing value counted once'},
+                'call': dict(w, reported=cell)}
+    return None
+
+
+WITNESS = {'profiler-none-and-nan-two-values': profiler_none_and_nan, 'suffix-filter-unsafe': suffix_filter_unsafe, 'gray-pair-njobs': gray_pair_njobs,
            'series-to-str-inplace-numeric': series_inplace_numeric}
 
 
